@@ -17,7 +17,8 @@ EXPLANATION = (
     "declared type is CopyFromInput(i), every conversion site that is dominated (through closure creation sites and one call "
     "level) by a match of input i against a tensor variant produces that variant's element type, and i is below max_inputs; "
     "(consumer) CastElimination removes a Cast only under a comparison of the input's inferred dtype with the cast's target "
-    "type. Operators whose output_types is None or not a literal rule list are enumerated against a reviewed table. Whether the "
+    "type, and graph inference pairs declared types / inferred shapes with output ids by position (zip over output_ids().iter() "
+    "with no dropping or reordering adapter). Operators whose output_types is None or not a literal rule list are enumerated against a reviewed table. Whether the "
     "type-specific kernels compute the right values is not decided.")
 ASSUMPTIONS = ["outputs are created through the Tensor<T> -> Value conversions or by returning (a copy of) an input value"]
 RT = {'Float': 'f32', 'Int32': 'i32', 'Int8': 'i8', 'UInt8': 'u8'}
